@@ -332,6 +332,16 @@ static void run_line(char *line) {
   (void)live_args;
 }
 
+static char hang_id[64];
+static void on_alarm(int sig) {
+  (void)sig;
+  char b[96];
+  int n = snprintf(b, sizeof b, "%s hang\n", hang_id);
+  fflush(stdout);
+  if (write(1, b, n) < 0) {}
+  _exit(77);
+}
+
 int main(int argc, char **argv) {
   for (int i = 1; i < argc; i++) {
     if (!strcmp(argv[i], "--fork"))
@@ -356,7 +366,13 @@ int main(int argc, char **argv) {
   ssize_t n;
   while ((n = getline(&linebuf, &linecap, stdin)) > 0) {
     if (!opt_fork) {
+      /* watchdog: a call that does not return is reported as "<id> hang" and ends the process with status 77; the
+         orchestrator restarts the harness behind that line */
+      sscanf(linebuf, "%63s", hang_id);
+      signal(SIGALRM, on_alarm);
+      alarm(getenv("M4RIV_WATCHDOG") ? atoi(getenv("M4RIV_WATCHDOG")) : 300);
       run_line(linebuf);
+      alarm(0);
       fflush(stdout);
     } else {
       /* run the line in a child; report its fate */
